@@ -11,6 +11,17 @@ import SnowModel.Generated.BoundedFuncs
 namespace SnowModel.Props.C11Bridge
 open SnowModel.Bounded
 
+/-! #### decorators -/
+
+/-- `random_choice`, `choice` and `if` are `@lazy` only; nothing the model covers carries a caching
+    decorator (`memorable`, `lru_cache`): every row re-evaluates its weights, bounds and draws.
+    (`_parse_date_str` / `_parse_datetime_str`, the cached string helpers, are pinned by `cached_parsers`.) -/
+theorem function_decorators :
+    Gen.BoundedFuncs.functionDecorators =
+      ["random_number: ", "random_choice: lazy", "choice: lazy", "if_: lazy", "date: ", "datetime: ",
+       "date_between: ", "datetime_between: ", "parse_weight_str: ", "weighted_choice: ", "parse_date: ",
+       "parse_datetimespec: ", "render_boolean: "] := rfl
+
 /-! #### random_number -/
 
 theorem rn_callee : Gen.BoundedFuncs.rnCallee = "random.randrange" := rfl
